@@ -80,7 +80,22 @@ class NpProxy:
         self.linalg = LinalgProxy()
 
     def __getattr__(self, name):
-        return getattr(_np, name)
+        attr = getattr(_np, name)
+        # plain numpy functions (concatenate, insert, cumsum, where, ...): object-array results become SymArray views, so that a later
+        # .astype(float/int) on symbolic entries goes through the model instead of numpy's C conversion
+        if callable(attr) and not isinstance(attr, (type, _np.ufunc)) and type(attr).__name__ in ("function", "builtin_function_or_method", "_ArrayFunctionDispatcher"):
+            def wrapped(*a, **kw):
+                out = attr(*a, **kw)
+                if _active():
+                    if isinstance(out, _np.ndarray) and out.dtype == object and type(out) is _np.ndarray:
+                        return out.view(SymArray)
+                    if isinstance(out, tuple):
+                        return tuple(o.view(SymArray) if isinstance(o, _np.ndarray) and o.dtype == object and type(o) is _np.ndarray else o for o in out)
+                return out
+
+            wrapped.__name__ = getattr(attr, "__name__", name)
+            return wrapped
+        return attr
 
     def _dt(self, dtype):
         return dtype._real if isinstance(dtype, _FakeUintType) else dtype
